@@ -12,10 +12,11 @@
   **What "all histories" means here.**  A history is any list of `Op`s.  Some calls are *left out*: the model's `step`
   answers `Obs.skip why`, the harness prints `skip why`, and the state is returned unchanged (`C19_skipped_ops_change_nothing`),
   so a history containing such a call is the history without it.  `Skipped` is the predicate; the reasons are
-  * `misuse` / `referenced` — freeing calls that are double frees by construction or belong to another property's known
-    finding: listed exactly by `St.freeSkip` (Cello/Hdr.lean) — a raw release of a collector-managed object, `destruct` of
-    a heap object, the release of a run-time Type in use, the release of a heap object that a live Tuple still points to.
-    No freeing call on a stack, static or embedded object is ever left out (`C19_nonheap_release_never_skipped`);
+  * `misuse` / `referenced` / `dangling` — freeing calls that are double frees by construction, belong to another property's
+    known finding or show a pointer the program left dangling: listed exactly by `St.freeSkip` (Cello/Hdr.lean) — a raw release
+    of a collector-managed object, `destruct` of a heap object, the release of a run-time Type in use, the release of a heap
+    object that a live Tuple still points to, `dealloc` of a stack Box whose pointee was released behind its back.
+    No other freeing call on a stack, static or embedded object is ever left out (`C19_nonheap_release_never_skipped`);
   * `unsupported` — a constructor, `copy`, in-place operation, iteration or view whose operand types are outside the
     universe of the model (`buildBody`, `copyBody`, `inPlaceObj`, `inPlaceElem`, `iterate`, `viewItems` return `none`):
     element types other than Int / String / Tuple / Array-of-Int / run-time structs, key types other than Int / String,
@@ -126,12 +127,13 @@ theorem C19_skipped_ops_change_nothing (cfg : Config) (s : St) (op : Op) (h : Sk
   exact step_skip hw
 
 /-- **which freeing calls are skipped**: exactly those for which `St.freeSkip` gives a reason, and the reason is `misuse`
-    (raw release of a collector-managed object, `destruct` of a heap object, release of a run-time Type in use) or
-    `referenced` (a heap object that a live Tuple points to: KF-C01-dangling-tuple-item). -/
+    (raw release of a collector-managed object, `destruct` of a heap object, release of a run-time Type in use),
+    `referenced` (a heap object that a live Tuple points to: KF-C01-dangling-tuple-item) or `dangling` (`dealloc` of a stack Box
+    whose pointee the program has already released: the refusal's message would show the released pointee). -/
 theorem C19_free_skip_reasons (cfg : Config) (s : St) (f : FreeOp) (id : Nat) (o : Obj) (hget : s.get id = some o)
     (hlive : o.live = true) :
     (∀ why, (stepFree cfg s f (.obj id)).2 = .skip why ↔ s.freeSkip cfg f id o = some why) ∧
-    (∀ why, s.freeSkip cfg f id o = some why → why = "misuse" ∨ why = "referenced") := by
+    (∀ why, s.freeSkip cfg f id o = some why → why = "misuse" ∨ why = "referenced" ∨ why = "dangling") := by
   refine ⟨?_, fun why h => freeSkip_reasons h⟩
   intro why
   unfold stepFree
@@ -141,13 +143,14 @@ theorem C19_free_skip_reasons (cfg : Config) (s : St) (f : FreeOp) (id : Nat) (o
   | some w => simp
 
 /-- **no freeing call on a stack, static or embedded-class object is ever skipped** (for all histories): whatever the
-    operation, it is executed and its outcome compared. (A run-time Type object in use is a heap object.) -/
+    operation, it is executed and its outcome compared — with the one exception of a Box holding a pointer to an object the
+    program has released (`danglingBox`). (A run-time Type object in use is a heap object.) -/
 theorem C19_nonheap_release_never_skipped (cfg : Config) (hs : cfg.Sound = true) (ops : List Op) (id : Nat) (o : Obj)
     (f : FreeOp) (hget : (run cfg St.init ops).get id = some o) (hnh : o.hdr.alloc ≠ cfg.cHeap)
-    (hty : (run cfg St.init ops).isTypeInUse id = false) :
+    (hty : (run cfg St.init ops).isTypeInUse id = false) (hdb : (run cfg St.init ops).danglingBox o = false) :
     (run cfg St.init ops).freeSkip cfg f id o = none :=
   freeSkip_nonheap_none (facts_of_sound hs)
-    (wf_run (facts_of_sound hs) ops (wf_init cfg) (noPend_of_nil rfl)).1 f hget hnh hty
+    (wf_run (facts_of_sound hs) ops (wf_init cfg) (noPend_of_nil rfl)).1 f hget hnh hty hdb
 
 /-- **Invariant, for all histories**: starting from the empty state, after any sequence of operations (births by every
     route, copies, Boxes re-pointed at will — chains, rings, a Box that owns itself, Boxes on the stack —, freeing operations
@@ -158,7 +161,7 @@ theorem C19_nonheap_release_never_skipped (cfg : Config) (hs : cfg.Sound = true)
     every registered handle is a live heap object; every released handle was a heap object and is dead; nothing was
     released twice; handles are distinct.
     "Any sequence" is literal: `ops` ranges over all lists of `Op`.  The calls that are `Skipped` (see the header of this
-    file: `misuse`, `referenced`, `unsupported`, `dead`, `self`, `duplicate`; the freeing ones are exactly `St.freeSkip`)
+    file: `misuse`, `referenced`, `dangling`, `unsupported`, `dead`, `self`, `duplicate`; the freeing ones are exactly `St.freeSkip`)
     are no-ops of the model and are not executed by the harness either (`C19_skipped_ops_change_nothing`): for those
     calls — double frees by construction, KF-C01-dangling-tuple-item, operand types outside the model's universe — nothing
     is claimed. -/
